@@ -130,7 +130,8 @@ def _parse_atom_attributes(
         RAD: [int(i.split("=")[1]) for i in line if i.startswith("RAD=")],
     }
     for key, val in optional_attrs.items():
-        if val:
+        # 0 is the default of CHG, MASS and RAD: same meaning as omitting the property.
+        if val and val[-1] != 0:
             atom_attrs[key] = val.pop()
 
     return atom_attrs, False
